@@ -684,7 +684,7 @@ class HierarchyElement(DiagLayer):
         if com_param is None:
             return None
 
-        val = com_param.value
+        val = com_param.get_value()
         if not isinstance(val, str):
             return None
 
@@ -704,7 +704,7 @@ class HierarchyElement(DiagLayer):
         if com_param is None:
             return None
 
-        val = com_param.value
+        val = com_param.get_value()
         if not isinstance(val, str):
             return None
 
